@@ -623,6 +623,14 @@ def check_box_guards(ctx):
     BIC_ = "discopy.biclosed"
     want = {"FA": {0: "Over"}, "BA": {0: "Under"}, "FC": {0: "Over", 1: "Over"}, "BC": {0: "Under", 1: "Under"}, "FX": {0: "Over", 1: "Under"}, "BX": {0: "Over", 1: "Under"}}
     agree = {"FC": ("right", "left"), "BC": ("right", "left"), "FX": ("right", "right"), "BX": ("left", "left")}
+    cu = m.func(BIC_ + ".Curry.__init__")
+    sup = next((c for c in ast.walk(cu) if isinstance(c, ast.Call) and ast.unparse(c.func) == "super().__init__"), None)
+    ctx.need(sup is not None, "biclosed.Curry.__init__ does not call super().__init__")
+    typ = [ast.unparse(a) for a in sup.args[1:3]] + ["%s=%s" % (k.arg, ast.unparse(k.value)) for k in sup.keywords if k.arg in ("dom", "cod")]
+    ctx.ob("R18.5", BIC_ + ".Curry.__init__:type", typ in (["dom", "cod"], ["dom=dom", "cod=cod"], ["dom", "cod=cod"]), found=typ, required="the curried box is typed by the dom and cod computed from the diagram, in this order",
+           mod=BIC_, node=sup, sig="box-type:Curry")
+    shape.match_stmts(ctx, "R18.5", BIC_ + ".Curry.__init__:fields", [s for s in cu.body if isinstance(s, ast.Assign) and isinstance(s.targets[0], (ast.Tuple, ast.Attribute))],
+                      ["self.diagram, self.n_wires, self.left = diagram, n_wires, left"], mod=BIC_, node=cu, sig="curry-fields", required="the functor reads .diagram, .n_wires and .left of the box: each keeps its own argument")
     for cname, table in want.items():
         fn = m.func("%s.%s.__init__" % (BIC_, cname))
         ctx.analysed("%s.%s.__init__" % (BIC_, cname))
